@@ -79,6 +79,22 @@ def ports(ctx) -> int:
         n += 1
         ctx.check(ok, "C23.port-options", fn.site, f"BaseMultiportMemory.{meth}", found="; ".join(tstr(ex.obj(r.value).ctor if ex.obj(r.value) is not None else r.value)[:160] for ex, r in rets) or "no port returned",
                   required=f"{cls}(memory=self, {opt}={opt}, ...)")
+    # overrides of the factories in the concrete memories hand every option on to the base factory
+    mi = ctx.repo.module(REL)
+    quals = [f"{cn_}.{mn_}" for cn_, ci_ in sorted(mi.classes.items()) for mn_ in sorted(ci_.methods) if mn_ in ("read_port", "write_port") and cn_ != "BaseMultiportMemory"]
+    for qual in quals:
+        meth = qual.split(".")[-1]
+        fn = Fn(ctx.repo, REL, qual, "C23")
+        opts = [a.arg for a in fn.fi.node.args.kwonlyargs if a.arg not in ("src_loc_at",)]
+        rets = [(ex, r) for ex, r in fn.facts(Return) if r.callid is None]
+        for ex, r in rets:
+            v = ex.obj(r.value).ctor if ex.obj(r.value) is not None else r.value
+            if not (v[0] == "call" and v[1] == ("a", ("call", ("n", "super"), (), ()), meth)):
+                continue
+            kw = dict(v[3])
+            missing = [o for o in opts if not (kw.get(o) is not None and kw[o][0] == "p" and kw[o][-1] == o)]
+            n += 1
+            ctx.check(not missing, "C23.port-options", r.site, f"{qual}", found=tstr(v)[:200], required=f"super().{meth}(...) receives every option of the request by name ({', '.join(opts)})")
     return n
 
 
